@@ -38,6 +38,9 @@ func NewGen() *Gen {
 		funSeen: map[string]bool{}, strLits: map[string]string{}, errGlobals: map[string]int{},
 		usedExt: map[string]bool{}, sortOfType: map[string]string{},
 	}
+	for _, m := range regexp.MustCompile(`\(declare-fun ([A-Za-z_][A-Za-z0-9_!.]*) `).FindAllStringSubmatch(preludeFuns, -1) {
+		g.funSeen[m[1]] = true
+	}
 	for _, n := range []string{"decquo", "nlmul", "nl_div", "nl_tdiv", "nl_mod", "nl_tmod", "band", "bor", "bxor", "strlen", "strcat", "strlt", "strcontains", "strhasprefix", "addrStr", "addrOf", "validAddr"} {
 		g.funSeen[n] = true
 	}
@@ -445,7 +448,10 @@ func (g *Gen) StrLit(s string) string {
 }
 
 // Preamble emits all sort, datatype, function declarations and global axioms.
-func (g *Gen) Preamble(stripQ bool) string {
+func (g *Gen) Preamble(stripQ bool) string { return g.PreambleFor(stripQ, "") }
+
+// PreambleFor emits declarations and those global axioms whose function symbols occur in body (all of them if body is empty).
+func (g *Gen) PreambleFor(stripQ bool, body string) string {
 	var b strings.Builder
 	b.WriteString("(declare-sort Str 0)\n(declare-sort Addr 0)\n(declare-sort Ctx 0)\n(define-sort Opq () Int)\n")
 	b.WriteString("(declare-datatypes ((Any 0)) (((any_nil) (any_str (any_s Str)) (any_int (any_i Int)) (any_bool (any_b Bool)) (any_addr (any_a Addr)) (any_other (any_o Int)))))\n")
@@ -469,15 +475,16 @@ func (g *Gen) Preamble(stripQ bool) string {
 		}
 		b.WriteString("))\n")
 	}
-	if stripQ {
-		for _, l := range strings.Split(preludeFuns, "\n") {
-			if strings.Contains(l, "(forall ") {
+	for _, l := range strings.Split(preludeFuns, "\n") {
+		if strings.Contains(l, "(forall ") {
+			if stripQ {
 				continue
 			}
-			b.WriteString(l + "\n")
+			if body != "" && !g.axiomRelevant(l, body) {
+				continue
+			}
 		}
-	} else {
-		b.WriteString(preludeFuns)
+		b.WriteString(l + "\n")
 	}
 	for i, s := range g.strOrder {
 		fmt.Fprintf(&b, "(assert (= (strlen str!%d) %d))\n", i, len(s))
@@ -487,6 +494,9 @@ func (g *Gen) Preamble(stripQ bool) string {
 	}
 	for i, a := range g.axioms {
 		if stripQ && (strings.Contains(a, "(forall ") || strings.Contains(a, "(exists ")) {
+			continue
+		}
+		if body != "" && strings.Contains(a, "(forall ") && !g.axiomRelevant(a, body) {
 			continue
 		}
 		fmt.Fprintf(&b, "; axiom %s\n(assert %s)\n", g.axiomNames[i], a)
@@ -545,7 +555,6 @@ const preludeFuns = `
 (assert (forall ((a Int) (b Int)) (! (=> (and (>= a 0) (>= b 0)) (and (>= (band a b) 0) (<= (band a b) a) (<= (band a b) b))) :pattern ((band a b)))))
 (assert (forall ((a Int)) (! (= (band a a) a) :pattern ((band a a)))))
 (assert (forall ((a Int)) (! (= (band a 0) 0) :pattern ((band a 0)))))
-(assert (forall ((a Int) (b Int) (c Int)) (! (= (band (band a b) c) (band a (band b c))) :pattern ((band (band a b) c)))))
 (assert (forall ((a Int) (b Int)) (! (=> (and (>= a 0) (>= b 0)) (and (>= (bor a b) a) (>= (bor a b) b))) :pattern ((bor a b)))))
 (declare-fun addrStr (Addr) Str)
 (declare-fun addrOf (Str) Addr)
@@ -597,4 +606,32 @@ func (g *Gen) litOf(term string) (string, bool) {
 		return g.strOrder[n], true
 	}
 	return "", false
+}
+
+var axiomSymRe = regexp.MustCompile(`\(([A-Za-z_][A-Za-z0-9_!.]*) `)
+
+var builtinOps = map[string]bool{"assert": true, "forall": true, "exists": true, "and": true, "or": true, "not": true, "ite": true, "select": true, "store": true,
+	"div": true, "mod": true, "let": true, "as": true, "_": true, "fp.geq": true, "fp.leq": true, "fp.isNaN": true, "fp.isInfinite": true, "to_real": true}
+
+// axiomRelevant: a quantified global axiom is needed only if every uninterpreted function it constrains in its pattern
+// occurs in the query body (an axiom about a function the query never mentions cannot contribute to a refutation except
+// through inconsistency of the axioms themselves, which the vacuity checks look for separately).
+func (g *Gen) axiomRelevant(ax, body string) bool {
+	pi := strings.Index(ax, ":pattern")
+	src := ax
+	if pi >= 0 {
+		src = ax[pi:]
+	}
+	any := false
+	for _, m := range axiomSymRe.FindAllStringSubmatch(src, -1) {
+		f := m[1]
+		if builtinOps[f] || !g.funSeen[f] {
+			continue
+		}
+		any = true
+		if !strings.Contains(body, "("+f+" ") {
+			return false
+		}
+	}
+	return any || pi < 0
 }
